@@ -255,12 +255,13 @@ def _verify(qual, repo, ctx, bound, second_solver, fast, case):
         from .engine import heap_typing, TDIV, TDIV2
         st.pc += heap_typing(ctx, heap)
         _a, _b, _c, _d = z3.Ints("a!td b!td c!td d!td")
-        st.pc.append(z3.ForAll([_a, _d], z3.Implies(z3.And(_a >= 0, _d > 0), TDIV(_a, _d) >= 0), patterns=[TDIV(_a, _d)]))
-        st.pc.append(z3.ForAll([_a, _b, _c, _d], z3.Implies(z3.And(_a >= 0, _b >= 0, _c >= 0, _d > 0), TDIV2(_a, _b, _c, _d) >= 0), patterns=[TDIV2(_a, _b, _c, _d)]))
+        tdiv_ax = []      # facts about the truncating quotient: only given to obligations that mention it (nonlinear axioms slow everything else down)
+        tdiv_ax.append(z3.ForAll([_a, _d], z3.Implies(z3.And(_a >= 0, _d > 0), TDIV(_a, _d) >= 0), patterns=[TDIV(_a, _d)]))
+        tdiv_ax.append(z3.ForAll([_a, _b, _c, _d], z3.Implies(z3.And(_a >= 0, _b >= 0, _c >= 0, _d > 0), TDIV2(_a, _b, _c, _d) >= 0), patterns=[TDIV2(_a, _b, _c, _d)]))
         # exact quotients (definition of truncation when the division leaves no remainder)
-        st.pc.append(z3.ForAll([_a, _d], z3.Implies(z3.And(_d > 0, _a % _d == 0), TDIV(_a, _d) == _a / _d), patterns=[TDIV(_a, _d)]))
-        st.pc.append(z3.ForAll([_a, _b, _c, _d], z3.Implies(z3.And(_d > 0, (_a * _b) % _d == 0), TDIV2(_a, _b, _c, _d) == ((_a * _b) / _d) * _c), patterns=[TDIV2(_a, _b, _c, _d)]))
-        st.pc.append(z3.ForAll([_a, _b, _c, _d], z3.Implies(z3.And(_d > 0, (_a * _c) % _d == 0), TDIV2(_a, _b, _c, _d) == ((_a * _c) / _d) * _b), patterns=[TDIV2(_a, _b, _c, _d)]))
+        tdiv_ax.append(z3.ForAll([_a, _d], z3.Implies(z3.And(_d > 0, _a % _d == 0), TDIV(_a, _d) == _a / _d), patterns=[TDIV(_a, _d)]))
+        tdiv_ax.append(z3.ForAll([_a, _b, _c, _d], z3.Implies(z3.And(_d > 0, (_a * _b) % _d == 0), TDIV2(_a, _b, _c, _d) == ((_a * _b) / _d) * _c), patterns=[TDIV2(_a, _b, _c, _d)]))
+        tdiv_ax.append(z3.ForAll([_a, _b, _c, _d], z3.Implies(z3.And(_d > 0, (_a * _c) % _d == 0), TDIV2(_a, _b, _c, _d) == ((_a * _c) / _d) * _b), patterns=[TDIV2(_a, _b, _c, _d)]))
         cls = qual.split(".")[0] if qual.split(".")[0] in ctx.sources.classes else None
         st.meta["cls"] = cls
         params = [a.arg for a in fn.args.args] + [a.arg for a in fn.args.kwonlyargs]
@@ -387,7 +388,10 @@ def _verify(qual, repo, ctx, bound, second_solver, fast, case):
         n_obl = 0
         n_ext = 0
         _retry_budget[0] = 6
+        from .engine import _mentions
         for ob in X.obls:
+            if _mentions(ob.goal, "tdiv") or any(_mentions(a_, "tdiv") for a_ in ob.assumptions):
+                ob.assumptions = list(ob.assumptions) + tdiv_ax
             res, dt, model, backend = solve(ob, mk_decoder(ob), 1500 if fast else None, relax=fast)
             others = []
             if fast:
